@@ -119,7 +119,12 @@ pub struct DecodeHistory {
 pub fn gen_decode_history(seed: u64, name: &str, idx: u64) -> DecodeHistory {
     let mut g = Stream::new(keyed(seed, &[hash_str(name), idx]), "c10-history");
     let cols = 3 + g.below(12) as usize;
-    let rows = 1 + g.below((cols - 1).min(8) as u64) as usize;
+    let rows = if g.chance(1, 5) {
+        // redundant checks: as many or more rows than columns
+        cols + g.below(4) as usize
+    } else {
+        1 + g.below((cols - 1).min(8) as u64) as usize
+    };
     let h = random_decoder_matrix(&mut g, rows, cols);
     let ncalls = 2 + g.below(19) as usize;
     let calls = (0..ncalls)
